@@ -9,8 +9,13 @@ def lex(s):
     return PPTOK.findall(s)
 
 
+_MARKER = re.compile(r'^#\s*(\d+(\s|$)|pragma\b|line\b|ident\b)')
+
+
 def strip_markers(out):
-    return '\n'.join(l for l in out.split('\n') if not l.startswith('#'))
+    """drop line markers and #pragma lines; any other line that starts with '#' is ordinary output (a '#' token that came out of
+    macro replacement) and is kept"""
+    return '\n'.join(l for l in out.split('\n') if not _MARKER.match(l))
 
 
 def norm_strings(toks):
